@@ -333,12 +333,14 @@ func (x *Exec) static(site ssa.Instruction, fn *ssa.Function, bindings []Value, 
 		var vals []Value
 		for i := 0; i < res.Len(); i++ {
 			r := x.u.W.Fresh("r."+sanitize(full), x.u.W.SortOf(res.At(i).Type()))
-			x.assumeTypeInv(r, res.At(i).Type(), x.curBlockReach, st)
 			if _, isSl := res.At(i).Type().Underlying().(*types.Slice); isSl {
+				// the returned slice is memory allocated by the callee: the allocation counter moves
+				// first, the validity facts of the result are stated against the new counter
 				st.alloc = x.u.W.Fresh("alloc", SInt)
 				x.assume(Ge(st.alloc, allocBefore))
 				x.assume(Or(Eq(SlCap(r), IntLit(0)), And(Ge(PBase(SlPtr(r)), allocBefore), Lt(PBase(SlPtr(r)), st.alloc))))
 			}
+			x.assumeTypeInv(r, res.At(i).Type(), x.curBlockReach, st)
 			vals = append(vals, r)
 		}
 		return resultValue(vals)
